@@ -13,7 +13,7 @@ ID = 'C14'
 LEVEL = 'exploration'
 RULE = ('Byte sources generated to sit on both sides of the size rule (empty and tiny files, already-minified output of a '
         'previous run, sources whose UTF-8 minified form grows: NUL escapes, Latin-1/cp1252/Shift-JIS cookie files with many '
-        'non-ASCII characters; CR/CRLF files, shebang-only and comment-only files, generated programs that shrink) x flag subsets '
+        'non-ASCII characters; modules assembled from 1-4 small statements that individually grow, cost a byte when hoisted, stay or shrink; CR/CRLF files, shebang-only and comment-only files, generated programs that shrink) x flag subsets '
         'x output mode in {path->stdout, path->--output, --in-place, stdin->stdout, stdin->--output} x PYMINIFY_FORCE_BEST_EFFORT in '
         '{unset, "", "1"}. Oracle: with M = utf8(minify(S, **documented(F))): override unset/empty => written == (M if len(M) <= len(S) else S), '
         'hence len(written) <= len(S); override set => written == M. Non-trivial: len(M) > len(S) (the fallback must engage) or the override is set; '
@@ -43,9 +43,22 @@ def sources(draw):
     return src, kind
 
 
+# small statements on either side of the size rule: ones the minifier cannot print as compactly as they are written (it puts a space
+# after a number, spells NUL as \\x00), ones where hoisting a literal used two or three times costs a byte, neutral and shrinking ones.
+# A module is 1-4 of them: the sum decides whether the fallback must engage, whatever intermediate results the tool computes.
+PIECES = [b'0in x', b'1if x else 2', b'x=1if y else 2', b'[0for i in y]', b"x='\\0'", b'x="\\0\\0"', b"def f():return'abc','abc'", b"def g():return'ab','ab','ab'",
+          b"def k():return b'xy',b'xy'", b'def m():return 1.5,1.5', b'def n():return None,None,None', b'def p():return True,True', b'def q():return 1000,1000',
+          b"s='ab','ab'", b'y=1000,1000', b'x=1', b'pass', b'import a\nimport b', b'def h(a):return a', b'z=(1,)', b'def r(argument):return argument',
+          b"def t():\n x='abcd'\n return x,'abcd'", b'class A(object):pass', b'x = 1', b"def u():return'a','a','a','a'", b'def v():return 1e3,1e3', b"w=f'{a}'",
+          b"def f2():return'abcde','abcde'", b'def f3(a,/):return a', b'raise E()', b'0', b"''"]
+
+
 @st.composite
 def _sources(draw):
-    r = draw(st.integers(0, 9))
+    r = draw(st.integers(0, 11))
+    if r >= 10:
+        parts = draw(st.lists(st.sampled_from(PIECES), min_size=1, max_size=4))
+        return draw(st.sampled_from([b'\n', b'\n', b';'])).join(parts) if not any(p.startswith((b'def', b'class', b'import')) and b'\n' in p for p in parts) else b'\n'.join(parts), 'pieces'
     if r < 3:
         return draw(st.sampled_from(TINY)), 'tiny'
     if r < 5:
